@@ -100,6 +100,9 @@ def parse_strace(path, root, cwd):
         elif call in ("mkdir", "mkdirat"):
             if strs and under(strs[0]):
                 evs.append({"ev": "mkdir", "path": canon(strs[0], cwd), "ok": ok})
+        elif call in ("unlink", "unlinkat") and strs and under(strs[0]) and istmp(strs[0]):
+            if ok:
+                evs.append({"ev": "unlink", "t": canon(strs[0], cwd)})
         elif any(under(s) for s in strs if s) or (fdpath and under(fdpath)):
             evs.append({"ev": "other", "what": "%s(%s)" % (call, args[:120])})
     return evs
@@ -111,14 +114,18 @@ class Sandbox:
         self.dir = os.path.realpath(tempfile.mkdtemp(prefix="c15-", dir=chk.work))
         self.n = 0
 
-    def run(self, argv, inject=None, cwd=None):
+    def run(self, argv, inject=None, cwd=None, fsize_blocks=None):
         self.n += 1
         cwd = cwd or self.dir
         logf = os.path.join(self.chk.work, "strace-%s-%d.log" % (os.path.basename(self.dir), self.n))
         cmd = ["strace", "-f", "-qq", "-y", "-s", "256", "-o", logf, "-e", "trace=" + SYSCALLS]
         if inject:
             cmd += ["-e", "inject=%s:signal=KILL:when=%d" % inject]
-        cmd += [self.qmluic, "generate-ui", "--foreign-types", QT5_METATYPES] + argv
+        tool = [self.qmluic, "generate-ui", "--foreign-types", QT5_METATYPES] + argv
+        if fsize_blocks is not None:
+            # the tracee alone gets a file size limit (512-byte blocks) with SIGXFSZ ignored: write() then returns a short count and EFBIG afterwards
+            tool = ["sh", "-c", 'trap "" XFSZ; ulimit -f %d; exec "$@"' % fsize_blocks, "sh"] + tool
+        cmd += tool
         p = subprocess.run(cmd, cwd=cwd, env=dict(os.environ, NO_COLOR="1"), capture_output=True, text=True, timeout=120)
         evs = parse_strace(logf, self.dir, cwd)
         os.unlink(logf)
@@ -172,6 +179,8 @@ def to_trace(evs, exp, ids_before, want, sizes, rc, ids_after, killed):
             trace.append({"ev": "write", "t": e["t"], "complete": full})
         elif e["ev"] == "chmod":
             trace.append({"ev": "chmod", "t": e["t"]})
+        elif e["ev"] == "unlink":
+            trace.append({"ev": "unlink", "t": e["t"]})
         elif e["ev"] == "rename":
             if e["path"] not in role:
                 probs.append("rename to a path that is not an expected output: %s -> %s" % (e["t"], e["path"]))
@@ -380,6 +389,53 @@ def kill_points(chk, qmluic, traces, back, quick):
             sb.close()
 
 
+def write_faults(chk, qmluic, traces, back):
+    """the file system accepts only part of a write (file size limit): the output paths still hold old or new complete content"""
+    argv = ["-O", "out", "X.qml"]
+    # both outputs span several 512-byte blocks, so that a limit can cut either of them in the middle
+    fill = "".join(' QLabel { text: "fill %d" }' % k for k in range(30))
+    texts = {v: TEXTS[True][v].replace(" } }\n", " }%s }\n" % fill) for v in ("v1", "v2")}
+    nm = {"ui": "x.ui", "h": "uisupport_x.h"}
+    versions, sizes = {}, {}
+    for vid in ("v1", "v2"):
+        got = reference(chk, qmluic, "X", texts[vid], True, True)
+        for r, n in nm.items():
+            versions[(r, sha(got[n]))] = vid
+            if vid == "v2":
+                sizes[r] = len(got[n])
+    if sizes["ui"] < 2048 or sizes["h"] < 1024:
+        raise ToolError("write_faults: outputs too small to be cut by a block-sized limit: %s" % sizes)
+    for blocks in (0, 1, 2, 3, 4, 5, 6, 8, 10, 16, 64):
+        for fresh in (False, True):
+            sb = Sandbox(chk, qmluic)
+            try:
+                open(os.path.join(sb.dir, "X.qml"), "w").write(texts["v2" if fresh else "v1"])
+                if not fresh:
+                    if subprocess.run([qmluic, "generate-ui", "--foreign-types", QT5_METATYPES] + argv, cwd=sb.dir, capture_output=True).returncode != 0:
+                        raise ToolError("write_faults: first generation failed")
+                    open(os.path.join(sb.dir, "X.qml"), "w").write(texts["v2"])
+                exp = {"ui": os.path.join(sb.dir, "out", "x.ui"), "h": os.path.join(sb.dir, "out", "uisupport_x.h")}
+                before = sb.files()
+                rc, evs, err = sb.run(argv, fsize_blocks=blocks)
+                after = sb.files()
+                chk.count({"fsize_blocks": blocks, "fresh": fresh}, nontrivial=True)
+                ids_b, ids_a = content_ids(before, exp, versions), content_ids(after, exp, versions)
+                ctx = {"file_size_limit_bytes": blocks * 512, "fresh": fresh, "argv": argv, "exit": rc, "stderr": err[-300:], "content": ids_a, "events": evs[:60],
+                       "files_after": sorted(p[len(sb.dir):] for p in after)}
+                for role in ("ui", "h"):
+                    if ids_a[role] not in ("v2", ids_b[role]):
+                        chk.violation("a run under a file size limit of %d bytes leaves %s neither old nor new (%s)" % (blocks * 512, exp[role][len(sb.dir):], ids_a[role]), ctx)
+                if rc == 0 and (ids_a["ui"], ids_a["h"]) != ("v2", "v2"):
+                    chk.violation("exit 0 although an output could not be written completely (limit %d bytes)" % (blocks * 512), ctx)
+                trace, probs = to_trace(evs, exp, ids_b, {"ui": "v2", "h": "v2", "ui2": "none", "h2": "none"}, sizes, rc, ids_a, rc not in (0, 1))
+                for pr in probs:
+                    chk.violation(pr, ctx)
+                traces.append(trace)
+                back.append(dict(ctx, case={"fsize_blocks": blocks, "fresh": fresh}))
+            finally:
+                sb.close()
+
+
 def validate(chk, traces, back):
     """all runs concatenated into one trace; on a rejection the offending run is reported and validation resumes after it"""
     start = 0
@@ -440,6 +496,7 @@ def run(chk):
             for dynamic in ((True, False) if si % 4 == 0 or not quick else (True,)):
                 history(chk, qmluic, srcs, outdir, lowercase, dynamic, traces, back)
     kill_points(chk, qmluic, traces, back, quick)
+    write_faults(chk, qmluic, traces, back)
     validate(chk, traces, back)
     chk.cov["programs"] = len(traces)
     chk.sample({"trace": traces[0]})
